@@ -190,6 +190,27 @@ def set_dynamic_evaluate_fn(
     _global_dynamic_evaluate_fn = fn
 
 
+def save_dynamic_evaluate_fn(per_thread: bool) -> Any:
+  """Returns the state of the per-thread (or process-wide) store."""
+  if per_thread:
+    # MISSING_VALUE stands for a thread that has no function of its own.
+    return utils.thread_local_get(
+        _TLS_KEY_DYNAMIC_EVALUATE_FN, utils.MISSING_VALUE)
+  return _global_dynamic_evaluate_fn
+
+
+def restore_dynamic_evaluate_fn(saved: Any, per_thread: bool) -> None:
+  """Restores the state returned by `save_dynamic_evaluate_fn`."""
+  global _global_dynamic_evaluate_fn
+  if per_thread:
+    if utils.MISSING_VALUE == saved:
+      utils.thread_local_del(_TLS_KEY_DYNAMIC_EVALUATE_FN)
+    else:
+      utils.thread_local_set(_TLS_KEY_DYNAMIC_EVALUATE_FN, saved)
+  else:
+    _global_dynamic_evaluate_fn = saved
+
+
 def get_dynamic_evaluate_fn() -> Optional[Callable[[HyperValue], Any]]:
   """Gets current dynamic evaluate function."""
   return utils.thread_local_get(
